@@ -233,6 +233,22 @@ def host_workload(ops, rng, n):
             ops.reset()
             ops.parse(1, 0, 'https://%s%s/' % (name, port))
             ops.parse(1, 0, 'https://%s.%s/' % (name, port))
+    # the IPv4 number lattice: every boundary value in every base (decimal, hex in both cases, octal, extra leading
+    # zeros) as the last part of a 1-, 2-, 3- and 4-part address, with and without the trailing dot
+    k = 0
+    for v in (0, 255, 256, 2 ** 16 - 1, 2 ** 16, 2 ** 24 - 1, 2 ** 24, 2 ** 31 - 1, 2 ** 31, 2 ** 31 + 1, 3 * 2 ** 30 + 1, 2 ** 32 - 1, 2 ** 32, 2 ** 32 + 1,
+              2 ** 33, 2 ** 35, 2 ** 36 - 1, 2 ** 63, 2 ** 64, 2 ** 64 + 1):
+        for sp in ('%d' % v, '0x%x' % v, '0X%X' % v, '0%o' % v, '000%o' % v, '0x000%x' % v):
+            for lead in ('', '1.', '1.2.', '1.2.3.', '0x1.'):
+                for dot in ('', '.'):
+                    if k % 12 == 0:
+                        ops.reset()
+                    k += 1
+                    ops.parse(1, 0, 'http://%s%s%s/' % (lead, sp, dot))
+                    if lead == '' and dot == '':
+                        ops.parse(2, 0, 'ws://example.com/')
+                        ops.set(2, 'host', sp)
+                        ops.parse(3, 0, 'a://%s/' % sp)        # not an IPv4 address in a non-special URL: opaque host
     for i in range(n):
         ops.reset()
         h = some_host(rng)
